@@ -201,5 +201,6 @@ fn main() {
     reuse_pass(&mut cx, "vm", 255, &vfns, &mut rng);
     let n = cx.id;
     file.flush().unwrap();
+    vharness::evalx::exit_on_build_failures("c20");
     eprintln!("c20: {n} records, {} programs", progs.len());
 }
